@@ -13,11 +13,11 @@ BASE = dict(MaxNodes=3, Keys=['k1', 'k2', 'M'], Vals=['v1'], MaxEntries=2, MaxEl
 CONFIGS = {
     'merge3': dict(BASE),
     'deep4': dict(BASE, MaxNodes=4, Keys=['k1', 'M'], Vals=[], SeqTags=[], AllowSelf=False),
-    'shapes': dict(BASE, MaxNodes=2, Keys=['k1', 'k1f', 'Q', 'U', 'M'], MapTags=['map', 'set'],
-                   SeqTags=['seq', 'omap', 'pairs']),
+    'shapes': dict(BASE, MaxNodes=2, Keys=['k1', 'k1f', 'Q', 'U', 'M'], MapTags=['map', 'set', 'omap', 'pairs'],
+                   SeqTags=['seq', 'omap', 'pairs', 'set']),     # every tag on both node kinds, empty nodes included
     # several merge keys (mapping and list valued) over shared sources, sources reused after the merging mapping
-    'mlist4': dict(BASE, MaxNodes=4, Keys=['k1', 'k2', 'M'], Vals=['v1'], MaxElems=1, Modes=['D'], AllowSelf=False,
-                   MergeShape='"refs"'),
+    'mlist4': dict(BASE, MaxNodes=4, Keys=['k1', 'M'], Vals=['v1', 'v2'], MaxElems=1, Modes=['D'], AllowSelf=False,
+                   MergeShape='"refs"'),          # one key, two values: which source wins is visible
     # a mapping that has its own merge key is built as an ordinary value and is then a merge source of a later one
     'reuse3': dict(BASE, MaxNodes=3, Keys=['k1', 'k2', 'M'], Vals=['v1'], SeqTags=[], Modes=['B', 'D'], AllowSelf=False,
                    MergeShape='"refs"'),
